@@ -382,4 +382,46 @@ theorem specTargets_congr (c1 c2 : LoadCfg) (hl : c1.loader = c2.loader) (hf : c
     simp only [specTargets, specTargets_congr c1 c2 hl hf pol ex r, LoadCfg.field, hl, hf]
     rfl
 
+/-! ### a dict node looks at its datum through its known keys only -/
+
+theorem dictReading_congr (cfg : LoadCfg) (d1 d2 : Val) : ∀ (m : List (String × InpCrown)),
+    (∀ k ∈ knownKeys m, d1.getItem (.s k) = d2.getItem (.s k)) →
+    specOkDict cfg d1 m = specOkDict cfg d2 m ∧ specArgsDict cfg d1 m = specArgsDict cfg d2 m ∧
+      specExtraDict d1 m = specExtraDict d2 m
+  | [], _ => by simp [specOkDict, specArgsDict, specExtraDict]
+  | (k, .none) :: r, h => by
+    have ih := dictReading_congr cfg d1 d2 r (fun k' hk' => h k' (by simp [knownKeys, hk']))
+    simpa [specOkDict, specArgsDict, specExtraDict] using ih
+  | (k, .field id) :: r, h => by
+    have ih := dictReading_congr cfg d1 d2 r (fun k' hk' => h k' (by simp [knownKeys, hk']))
+    have hk := h k (by simp [knownKeys])
+    simp [specOkDict, specArgsDict, specExtraDict, okFieldDict, specFieldDict, hk, ih.1, ih.2.1, ih.2.2]
+  | (k, .dict m' pol) :: r, h => by
+    have ih := dictReading_congr cfg d1 d2 r (fun k' hk' => h k' (by simp [knownKeys, hk']))
+    have hk := h k (by simp [knownKeys])
+    simp [specOkDict, specArgsDict, specExtraDict, hk, ih.1, ih.2.1, ih.2.2]
+  | (k, .list m' pol) :: r, h => by
+    have ih := dictReading_congr cfg d1 d2 r (fun k' hk' => h k' (by simp [knownKeys, hk']))
+    have hk := h k (by simp [knownKeys])
+    simp [specOkDict, specArgsDict, specExtraDict, hk, ih.1, ih.2.1, ih.2.2]
+
+/-- a dict layout is flat when all its children are leaves (no field is mapped to a nested path) -/
+def flat : List (String × InpCrown) → Bool
+  | [] => true
+  | (_, .field _) :: r => flat r
+  | (_, .none) :: r => flat r
+  | _ => false
+
+/-! ### a concrete program for the non-vacuity examples of Props/C03 -/
+
+def exCfg (mode : DebugTrail) : LoadCfg :=
+  { mode, strict := true, move := .none,
+    fields := [{ id := "a" }, { id := "b", required := false, default := some (.int 7) }],
+    loader := fun _ v => match v with
+      | .int n => .ok (.int n)
+      | v => .error ⟨[], .typeLoad "int" v⟩ }
+
+def exCrown : InpCrown :=
+  .dict [("x", .list [.field "a", .none] .forbid), ("B", .field "b")] .forbid
+
 end Adaptix.Layout
